@@ -11,12 +11,11 @@ import Sqljson.Model.Parse
 * §2 operator tables    — the printed spelling of every binary operator lexes back to the token
                            from which the parser builds that operator; the priority table is
                            strictly ordered like the grammar's precedence levels.
-* §3 counterexamples    — concrete evaluations (kernel `decide`) of the known deviations of the
-                           pinned Go code from C02 / C03 / C04, stated for an ASCII instance of
-                           the oracles (which agrees with Go's tables on ASCII).
-* §4 `scanString_quote` — `unquote (quote s) = s`: the lexer reads back what `strconv.Quote`
-                           writes, for every string free of U+0007 and of non-printable astral
-                           characters (the two escape forms `\a`, `\U…` the lexer does not know).
+* §3 concrete evaluations (kernel `decide`, ASCII instance of the oracles) — the deviations from
+                           C02 the repaired Go code still has (D3, D5), and what the inputs of
+                           the repaired defects do now.
+* §4 `scanString_quote` — `unquote (quote s) = s`: the lexer reads back what `ast.quote`
+                           writes, for every string without NUL.
 * §5 totality           — `parse` is a total function by construction; the lexer never gives input back.
 -/
 
@@ -302,9 +301,11 @@ theorem methodStr_lexes_back (m : Method) :
     firstTok ((Print.methodStr m).drop 1) = methodTok m ∧ Parse.methodOf (methodTok m) = some m := by
   cases m <;> decide +kernel
 
-/-! ## §3 Counterexamples on the pinned code (all confirmed against the Go package)
+/-! ## §3 Concrete evaluations (kernel `decide`, ASCII instance of the oracles)
 
-`outcome` renders a parse outcome: the printed path, `ERR`, or `PANIC`. -/
+`outcome` renders a parse outcome: the printed path, `ERR`, or `PANIC`.
+First the deviations from C02 that the repaired Go code still has (known findings, all confirmed
+against the Go package), then the positive counterparts of the repaired defects. -/
 
 def outcome : ParseOutcome → String
   | .ok a => match Print.toString asciiOracles.isPrint a with
@@ -320,20 +321,28 @@ def rootIs (p : Node → Bool) : ParseOutcome → Bool
   | .ok a => p a.root
   | _ => false
 
+/-! ### Known findings (still present) -/
+
 /-- **C02 fails (D3)**: an operand of higher priority than its parent that carries an accessor
     chain is printed without its parentheses; the output is not even accepted. -/
 theorem c02_counterexample_operand_with_accessor :
     run "(2*3).abs() + 1" = "(2 * 3.abs() + 1)" ∧ run "(2 * 3.abs() + 1)" = "ERR" := by
   decide +kernel
 
-/-- **C02 fails**: `exists`, `!`, `is unknown`, `like_regex` nodes followed by an accessor lose
-    their parentheses when printed. -/
+/-- **C02 fails (D3)**: `exists`, `!`, `is unknown` nodes followed by an accessor lose their
+    parentheses when printed. -/
 theorem c02_counterexample_predicate_with_accessor :
     run "exists(($ == 1).x)" = "exists ($ == 1.\"x\")" ∧ run "exists ($ == 1.\"x\")" = "ERR" ∧
     run "(exists($)).x" = "exists ($).\"x\"" ∧ run "exists ($).\"x\"" = "ERR" ∧
     run "(!($ == 1)).x" = "!($ == 1).\"x\"" ∧ run "!($ == 1).\"x\"" = "ERR" ∧
     run "(($ == 1) is unknown).x" = "($ == 1) is unknown.\"x\"" ∧
       run "($ == 1) is unknown.\"x\"" = "ERR" := by
+  decide +kernel
+
+/-- **C02 fails (D3)**: a `like_regex` node with an accessor, under a comparison, loses its parentheses. -/
+theorem c02_counterexample_regex_with_accessor :
+    run "(($ like_regex \"a\").x == 1)" = "($ like_regex \"a\".\"x\" == 1)" ∧
+    run "($ like_regex \"a\".\"x\" == 1)" = "ERR" := by
   decide +kernel
 
 /-- **C02 fails (D5)**: `4.0` is a `NumericNode`, printed `4`, which reads back as an `IntegerNode`. -/
@@ -343,90 +352,87 @@ theorem c02_counterexample_numeric_prints_as_integer :
     rootIs (fun n => match n with | .integer 4 none => true | _ => false) (parse asciiOracles (ascii "4")) = true := by
   decide +kernel
 
-/-- **C02 and C04 fail together**: a numeric literal whose value is integral and at least 2^63
-    (but below 1e21) is printed as a plain run of digits; parsing that output *panics*. -/
-theorem c02_counterexample_print_output_panics :
-    run "1e20" = "100000000000000000000" ∧ run "100000000000000000000" = "PANIC" := by
+/-- **C02 fails (D5)**: a numeric literal whose value is integral and at least 2^63 (but below
+    1e21) is printed as a plain run of digits, which is an integer literal out of range: the
+    output of `String()` is rejected (it used to panic). -/
+theorem c02_counterexample_print_output_rejected :
+    run "1e20" = "100000000000000000000" ∧ run "100000000000000000000" = "ERR" := by
   decide +kernel
 
-/-- **C02 fails**: a `like_regex` node with an accessor, under a comparison, loses its parentheses. -/
-theorem c02_counterexample_regex_with_accessor :
-    run "(($ like_regex \"a\").x == 1)" = "($ like_regex \"a\".\"x\" == 1)" ∧
-    run "($ like_regex \"a\".\"x\" == 1)" = "ERR" := by
+/-! ### Repaired defects: what the same inputs do now -/
+
+/-- 27cd18c: negating a literal that is already negative drops the sign -/
+theorem negated_negative_literal :
+    run "--1" = "1" ∧ run "-(-1)" = "1" ∧ run "-(+(-1))" = "1" ∧ run "--1.5" = "1.5" ∧
+    run "- - -1" = "-1" := by
   decide +kernel
 
-/-- **C02 fails**: U+0007 is printed `\a`, which the lexer reads as the letter `a`. -/
-theorem c02_counterexample_bell :
-    Print.toString asciiOracles.isPrint ⟨.str [Char.ofNat 7] none, true, false⟩ = some "\"\\a\"".toList ∧
-    rootIs (fun n => match n with | .str ['a'] none => true | _ => false)
-      (parse asciiOracles (ascii "\"\\a\"")) = true := by
+/-- 8b84db8: literals that do not fit `int64` / `float64` are parse errors, wherever they stand -/
+theorem out_of_range_literals_rejected :
+    run "9223372036854775808" = "ERR" ∧ run "-9223372036854775808" = "ERR" ∧
+    run "9223372036854775807" = "9223372036854775807" ∧ run "-9223372036854775807" = "-9223372036854775807" ∧
+    run "1e400" = "ERR" ∧ run "$.decimal(9223372036854775808)" = "ERR" ∧
+    run "$.time(99999999999999999999)" = "ERR" := by
   decide +kernel
 
-/-- **C02 fails**: a non-printable astral character is printed `\U000e0001`, which the lexer reads
-    as the letter `U` followed by the digits. -/
-theorem c02_counterexample_astral :
-    Print.toString asciiOracles.isPrint ⟨.str [Char.ofNat 0xE0001] none, true, false⟩
-      = some "\"\\U000e0001\"".toList ∧
-    run "\"\\U000e0001\"" = "\"U000e0001\"" := by
+/-- 8b84db8: the placeholder left after a reported error is a real node; a following accessor
+    just goes on (and the parse ends with the error) -/
+theorem error_placeholders_are_nodes :
+    run "$.decimal(1,2,3)" = "ERR" ∧ run "$.decimal(1,2,3).\"a\"" = "ERR" ∧
+    run "$.decimal(1,2,3)[0]" = "ERR" ∧
+    run "$ like_regex \"a\" flag \"x\"" = "ERR" ∧ run "($ like_regex \"a\" flag \"x\").\"a\"" = "ERR" := by
   decide +kernel
 
-/-- **C03 fails**: an identifier that ends in an escape at the very end of the input loses its
-    text (`$.a\x41` is the key `""`), while the same key followed by a blank is `"aA"`. -/
-theorem c03_counterexample_trailing_escape :
-    run "$.a\\x41" = "$.\"\"" ∧ run "$.a\\x41 " = "$.\"aA\"" := by
+/-- a lexing error still does not stop the parse, but nothing after it can panic any more -/
+theorem no_panic_after_lex_error :
+    outcome (parse asciiOracles (ascii "$ " ++ [0] ++ ascii " + 9223372036854775808")) = "ERR" ∧
+    outcome (parse asciiOracles (ascii "$ " ++ [0] ++ ascii " + --1")) = "ERR" := by
   decide +kernel
 
-/-- **C03 fails (D24)**: the bounds of `.**{…}` go through `strconv.Atoi` with the error ignored,
-    so the non-decimal spellings the lexer accepts all mean 0. -/
-theorem c03_counterexample_any_level :
-    run "$.**{0x2}" = "$.**{0}" ∧ run "$.**{1_0}" = "$.**{0}" ∧ run "$.**{2}" = "$.**{2}" ∧
-    run "$.**{99999999999999999999}" = "$.**{last}" := by
+/-- a381b50: the levels of `.**{…}` accept every integer spelling; out of `int32` range is an error -/
+theorem any_level_spellings :
+    run "$.**{0x2}" = "$.**{2}" ∧ run "$.**{1_0}" = "$.**{10}" ∧ run "$.**{0b11 to 0o17}" = "$.**{3 to 15}" ∧
+    run "$.**{2147483647}" = "$.**{2147483647}" ∧ run "$.**{2147483648}" = "ERR" ∧
+    run "$.**{99999999999999999999}" = "ERR" := by
   decide +kernel
 
-/-- **C03 fails**: `\u{110000}` is not a code point, yet it is accepted (as U+FFFD). -/
-theorem c03_counterexample_out_of_range_escape :
-    rootIs (fun n => match n with | .str [c] none => c.toNat == 0xFFFD | _ => false)
-      (parse asciiOracles (ascii "\"\\u{110000}\"")) = true := by
+/-- 91b1b26: an identifier that ends in an escape at the very end of the input keeps its text -/
+theorem trailing_escape_keeps_text :
+    run "$.a\\x41" = "$.\"aA\"" ∧ run "$.a\\x41 " = "$.\"aA\"" ∧ run "$.\\1" = "$.\"1\"" := by
   decide +kernel
 
-/-- **C03 / C04 fail**: the generated parser maps the private-use runes U+E002 … U+E031 to the
-    grammar's named tokens: U+E002 is read as `to`, U+E00C as an integer literal whose text is
-    the rune itself, so `NewInteger` panics. -/
-theorem c03_counterexample_private_use_runes :
-    outcome (parse asciiOracles (ascii "$[1 " ++ [0xEE, 0x80, 0x82] ++ ascii " 2]")) = "$[1 to 2]" ∧
-    outcome (parse asciiOracles [0xEE, 0x80, 0x8C]) = "PANIC" := by
+/-- 148e980: `\u{…}` beyond U+10FFFF is rejected; U+10FFFF itself is fine -/
+theorem out_of_range_escape_rejected :
+    run "\"\\u{110000}\"" = "ERR" ∧ run "\"\\u{ffffff}\"" = "ERR" ∧
+    run "\"\\u{10ffff}\"" = "\"\\u{10ffff}\"" := by
   decide +kernel
 
-/-- **C04 fails**: inputs on which `Parse` panics in a constructor of package `ast`. -/
-theorem c04_counterexample_panics :
-    run "--1" = "PANIC" ∧ run "-(-1)" = "PANIC" ∧ run "9223372036854775808" = "PANIC" ∧
-    run "1e400" = "PANIC" ∧ run "$.decimal(9223372036854775808)" = "PANIC" ∧
-    run "$.time(99999999999999999999)" = "PANIC" ∧ run "--1.5" = "PANIC" := by
+/-- daa0e70: the runes U+E000 … U+E032 are invalid characters for the lexer
+    (U+E002 used to read as `to`, U+E00C as an integer literal) -/
+theorem private_use_runes_rejected :
+    outcome (parse asciiOracles (ascii "$[1 " ++ [0xEE, 0x80, 0x82] ++ ascii " 2]")) = "ERR" ∧
+    outcome (parse asciiOracles [0xEE, 0x80, 0x8C]) = "ERR" ∧
+    outcome (parse asciiOracles (ascii "$ " ++ [0xEE, 0x80, 0x91] ++ ascii " 1")) = "ERR" := by
   decide +kernel
 
-/-- **C04 fails**: after `.decimal()` with three arguments (an error the parser reports and then
-    carries on from) a nil node is on the stack; a following accessor makes `LinkNodes`
-    dereference it.  Likewise the typed-nil `*RegexNode` left by a failed `NewRegex`. -/
-theorem c04_counterexample_nil_dereference :
-    run "$.decimal(1,2,3)" = "ERR" ∧ run "$.decimal(1,2,3).\"a\"" = "PANIC" ∧
-    run "$.decimal(1,2,3)[0]" = "PANIC" ∧
-    run "$ like_regex \"a\" flag \"x\"" = "ERR" ∧ run "($ like_regex \"a\" flag \"x\").\"a\"" = "PANIC" := by
-  decide +kernel
-
-/-- **C04 fails**: a lexing error does not stop the parse (`stopTok` and the parser's "no
-    look-ahead" marker are both `-1`), so a later literal can still panic. -/
-theorem c04_counterexample_panic_after_lex_error :
-    outcome (parse asciiOracles (ascii "$ " ++ [0] ++ ascii " + 9223372036854775808")) = "PANIC" ∧
-    outcome (parse asciiOracles (ascii "$ " ++ [0] ++ ascii " 9223372036854775808")) = "ERR" := by
+/-- 86832a0: U+0007 and non-printable astral characters are printed with escapes the lexer reads
+    back (`\u0007`, `\u{e0001}`), so such strings round-trip (the general statement is
+    `scanString_quote` / `lex_quote`) -/
+theorem bell_and_astral_round_trip :
+    Print.toString asciiOracles.isPrint ⟨.str [Char.ofNat 7, Char.ofNat 0xE0001, Char.ofNat 0x10FFFF] none, true, false⟩
+      = some "\"\\u0007\\u{e0001}\\u{10ffff}\"".toList ∧
+    rootIs (fun n => match n with
+        | .str [a, b, c] none => a.toNat == 7 && b.toNat == 0xE0001 && c.toNat == 0x10FFFF
+        | _ => false)
+      (parse asciiOracles (ascii "\"\\u0007\\u{e0001}\\u{10ffff}\"")) = true := by
   decide +kernel
 
 /-! ## §4 `unquote (quote s) = s`
 
-The printer writes strings with `strconv.Quote`; the lexer reads them with `scanString`.
+The printer writes strings with `ast.quote`; the lexer reads them with `scanString`.
 `scanString_quote` shows that the lexer reads back exactly the string that was quoted, for every
-string whose characters are `QuoteSafe`.  The two excluded classes are exactly the escape forms of
-`strconv.Quote` that the lexer does not know (`\a`, `\U…`, see `c02_counterexample_bell`,
-`c02_counterexample_astral`); NUL never occurs in a string the lexer produced.
+string without NUL (which no string read by the lexer contains).  Since 86832a0 this includes
+U+0007 (written `\u0007`) and the non-printable astral characters (written `\u{X…}`).
 The one assumption on the oracle is `isPrint '\n' = false` (true of `strconv.IsPrint`). -/
 
 /-- the source made of the characters `l` followed by `tail` -/
@@ -447,6 +453,9 @@ theorem lowerHex_toNat_ne_zero (d : Nat) (h : d < 16) : (Print.lowerHex d).toNat
   rcases lt16_cases d h with h | h | h | h | h | h | h | h | h | h | h | h | h | h | h | h <;> subst h <;> decide
 
 theorem lowerHex_ne_brace (d : Nat) (h : d < 16) : Print.lowerHex d ≠ '{' := by
+  rcases lt16_cases d h with h | h | h | h | h | h | h | h | h | h | h | h | h | h | h | h <;> subst h <;> decide
+
+theorem lowerHex_ne_rbrace (d : Nat) (h : d < 16) : Print.lowerHex d ≠ '}' := by
   rcases lt16_cases d h with h | h | h | h | h | h | h | h | h | h | h | h | h | h | h | h <;> subst h <;> decide
 
 /-- `\xNN` read back -/
@@ -506,10 +515,100 @@ theorem scanUnicode_feed (st : LState) (c : Char) (hc0 : c.toNat ≠ 0) (hc : c.
   rw [next_feed_cons _ _ _ _ (lowerHex_toNat_ne_zero _ h0)]
   simp only [hexChar_lowerHex _ h0]
   unfold fixedDigits
-  simp only [hd, hc0, if_false, hns]
+  have hmax : ¬ (c.toNat > 0x10FFFF) := by omega
+  simp only [hd, hc0, hmax, if_false, hns]
   rw [next_feed_cons _ _ _ _ hy]
   simp [hr]
 
+
+
+/-- the `\u{…}` digit loop reads hex digits up to the closing brace -/
+theorem braceDigits_feed (st : LState) (l : List Char) (tail : List Src) :
+    ∀ (ds : List Nat) (f i rr d : Nat), d < 16 → (∀ x ∈ ds, x < 16) → ds.length + 2 ≤ f →
+      i + ds.length + 1 ≤ 6 →
+      braceDigits f i (some (Print.lowerHex d)) rr (feed st (ds.map Print.lowerHex ++ '}' :: l) tail)
+        = (some (ds.foldl (fun a x => a * 16 + x) (rr * 16 + d)), feed st l tail) := by
+  intro ds
+  induction ds with
+  | nil =>
+    intro f i rr d hd _ hf hi
+    obtain ⟨f1, rfl⟩ : ∃ f1, f = f1 + 2 := ⟨f - 2, by simp at hf; omega⟩
+    have hi' : i < 6 := by simp at hi; omega
+    simp only [List.map_nil, List.nil_append, List.foldl_nil]
+    unfold braceDigits
+    have hc : (decide (i < 6) && decide (some (Print.lowerHex d) ≠ some '}')) = true := by
+      simp [hi', lowerHex_ne_rbrace d hd]
+    rw [if_pos hc]
+    simp only [hexChar_lowerHex d hd]
+    rw [next_feed_cons _ _ _ _ (by decide)]
+    unfold braceDigits
+    simp
+  | cons x xs ih =>
+    intro f i rr d hd hxs hf hi
+    obtain ⟨f1, rfl⟩ : ∃ f1, f = f1 + 1 := ⟨f - 1, by simp at hf; omega⟩
+    have hi' : i < 6 := by simp at hi; omega
+    have hx : x < 16 := hxs x (by simp)
+    simp only [List.map_cons, List.cons_append, List.foldl_cons]
+    unfold braceDigits
+    have hc : (decide (i < 6) && decide (some (Print.lowerHex d) ≠ some '}')) = true := by
+      simp [hi', lowerHex_ne_rbrace d hd]
+    rw [if_pos hc]
+    simp only [hexChar_lowerHex d hd]
+    rw [next_feed_cons _ _ _ _ (lowerHex_toNat_ne_zero x hx)]
+    exact ih f1 (i + 1) (rr * 16 + d) x hx (fun z hz => hxs z (by simp [hz]))
+      (by simp at hf ⊢; omega) (by simp at hi ⊢; omega)
+
+theorem hexTrim_digits (n : Nat) (h1 : 0x10000 ≤ n) (h2 : n < 0x110000) :
+    ∃ (d : Nat) (ds : List Nat), d < 16 ∧ (∀ x ∈ ds, x < 16) ∧ ds.length ≤ 5 ∧
+      Print.hexTrim n = Print.lowerHex d :: ds.map Print.lowerHex ∧
+      ds.foldl (fun a x => a * 16 + x) (0 * 16 + d) = n := by
+  unfold Print.hexTrim
+  by_cases h : n < 0x100000
+  · rw [if_pos h]
+    refine ⟨n / 65536 % 16, [n / 4096 % 16, n / 256 % 16, n / 16 % 16, n % 16], Nat.mod_lt _ (by decide), ?_, by simp, ?_, ?_⟩
+    · intro x hx
+      simp at hx
+      rcases hx with rfl | rfl | rfl | rfl <;> exact Nat.mod_lt _ (by decide)
+    · simp [Print.hexDigits]
+    · simp only [List.foldl_cons, List.foldl_nil]; omega
+  · rw [if_neg h]
+    refine ⟨n / 1048576 % 16, [n / 65536 % 16, n / 4096 % 16, n / 256 % 16, n / 16 % 16, n % 16], Nat.mod_lt _ (by decide), ?_, by simp, ?_, ?_⟩
+    · intro x hx
+      simp at hx
+      rcases hx with rfl | rfl | rfl | rfl | rfl <;> exact Nat.mod_lt _ (by decide)
+    · simp [Print.hexDigits]
+    · simp only [List.foldl_cons, List.foldl_nil]; omega
+
+/-- `\u{X…}` (an astral character) read back -/
+theorem scanUnicode_brace_feed (st : LState) (c : Char) (hc : 0x10000 ≤ c.toNat)
+    (y : Char) (hy : y.toNat ≠ 0) (l : List Char) (tail : List Src) :
+    scanUnicode (feed st ('{' :: (Print.hexTrim c.toNat ++ '}' :: y :: l)) tail)
+      = ⟨some y, some c, feed st l tail⟩ := by
+  have hv : c.toNat < 0xd800 ∨ (0xdfff < c.toNat ∧ c.toNat < 0x110000) := c.valid
+  have hlt : c.toNat < 0x110000 := by omega
+  obtain ⟨d, ds, hd, hds, hlen, hdig, hval⟩ := hexTrim_digits c.toNat hc hlt
+  have hns : isSurrogate c.toNat = false := by
+    simp only [isSurrogate, Bool.and_eq_false_imp, decide_eq_true_eq, decide_eq_false_iff_not]
+    omega
+  have hr : runeOfNat c.toNat = c := by
+    unfold runeOfNat
+    have : (decide (c.toNat < 0xD800) || (decide (0xE000 ≤ c.toNat) && decide (c.toNat < 0x110000))) = true := by
+      simp only [Bool.or_eq_true, Bool.and_eq_true, decide_eq_true_eq]
+      omega
+    rw [if_pos this]; exact Char.ofNat_toNat c
+  rw [hdig]
+  simp only [List.cons_append]
+  unfold scanUnicode decodeUnicode
+  rw [next_feed_cons _ _ _ _ (by decide)]
+  simp only [if_true]
+  rw [next_feed_cons _ _ _ _ (lowerHex_toNat_ne_zero d hd)]
+  have hb := braceDigits_feed st (y :: l) tail ds 8 0 0 d hd hds (by omega) (by omega)
+  rw [hb, hval]
+  have hmax : ¬ (c.toNat > 0x10FFFF) := by omega
+  have h0 : c.toNat ≠ 0 := by omega
+  simp only [hmax, h0, if_false, hns]
+  rw [next_feed_cons _ _ _ _ hy]
+  simp [hr]
 
 /-- single-letter escapes and literal escapes read back: the letter `e` after the backslash
     yields the character `x` -/
@@ -551,6 +650,14 @@ theorem scanEscape_unicode (buf : List Char) (st : LState) (c : Char) (hc0 : c.t
   simp [scanUnicode_feed st c hc0 hc y hy l tail]
 
 
+theorem scanEscape_unicode_brace (buf : List Char) (st : LState) (c : Char) (hc : 0x10000 ≤ c.toNat)
+    (y : Char) (hy : y.toNat ≠ 0) (l : List Char) (tail : List Src) :
+    scanEscape buf (feed st ('u' :: '{' :: (Print.hexTrim c.toNat ++ '}' :: y :: l)) tail)
+      = (some y, c :: buf, feed st l tail) := by
+  unfold scanEscape
+  rw [next_feed_cons _ _ _ _ (by decide)]
+  simp [scanUnicode_brace_feed st c hc y hy l tail]
+
 theorem stringLoop_succ (f : Nat) (ret : Tok) (c : Char) (buf : List Char) (s : LState) :
     stringLoop (f + 1) ret (some c) buf s =
       if c = '"' then
@@ -565,11 +672,9 @@ theorem stringLoop_succ (f : Nat) (ret : Tok) (c : Char) (buf : List Char) (s : 
         stringLoop f ret ch' (c :: buf) s' := by
   rfl
 
-/-- characters that survive `strconv.Quote` followed by the lexer: not NUL (which no string
-    read by the lexer contains), not U+0007 (printed `\a`), and printable or in the BMP
-    (a non-printable astral character is printed `\U…`) -/
-def QuoteSafe (isPrint : Char → Bool) (c : Char) : Prop :=
-  c.toNat ≠ 0 ∧ c.toNat ≠ 7 ∧ (isPrint c = true ∨ c.toNat < 65536)
+/-- characters that survive `ast.quote` followed by the lexer: every character but NUL (which no
+    string read by the lexer contains: `next` refuses it and `\u0000`, `\x00` are errors) -/
+def QuoteSafe (_isPrint : Char → Bool) (c : Char) : Prop := c.toNat ≠ 0
 
 section
 variable (isPrint : Char → Bool) (hnl : isPrint '\n' = false)
@@ -581,7 +686,7 @@ theorem stringLoop_step (c : Char) (hc : QuoteSafe isPrint c) (f : Nat) (buf : L
     (y : Char) (hy : y.toNat ≠ 0) (l : List Char) (tail : List Src) :
     stringLoop (f + 1) .string (some x) buf (feed st (xs ++ y :: l) tail)
       = stringLoop f .string (some y) (c :: buf) (feed st l tail) := by
-  obtain ⟨h0, h7, hp⟩ := hc
+  have h0 : c.toNat ≠ 0 := hc
   unfold Print.escapeRune at hx
   by_cases hq : (c = '"' || c = '\\') = true
   · -- \" and \\
@@ -609,10 +714,6 @@ theorem stringLoop_step (c : Char) (hc : QuoteSafe isPrint c) (f : Nat) (buf : L
       rw [stringLoop_succ]
       simp [hq1, hq2, hn, next_feed_cons _ _ _ _ hy]
     · rw [if_neg hpr] at hx
-      have hlt : c.toNat < 65536 := by
-        rcases hp with hp | hp
-        · exact absurd hp hpr
-        · exact hp
       simp only at hx
       -- the escape always starts with a backslash
       have key : ∀ (es : List Char) (out : Char),
@@ -623,7 +724,9 @@ theorem stringLoop_step (c : Char) (hc : QuoteSafe isPrint c) (f : Nat) (buf : L
         rw [stringLoop_succ]
         simp [h]
       by_cases c7 : c.toNat = 7
-      · exact absurd c7 h7
+      · rw [if_pos c7] at hx
+        injection hx with hx1 hx2; subst hx1; subst hx2
+        exact key _ _ (scanEscape_unicode buf st c h0 (by omega) y hy l tail)
       rw [if_neg c7] at hx
       by_cases c8 : c.toNat = 8
       · rw [if_pos c8] at hx
@@ -677,9 +780,16 @@ theorem stringLoop_step (c : Char) (hc : QuoteSafe isPrint c) (f : Nat) (buf : L
         rw [Char.ofNat_toNat] at this
         exact key _ _ this
       · rw [if_neg cx] at hx
-        rw [if_pos (by simpa using hlt)] at hx
-        injection hx with hx1 hx2; subst hx1; subst hx2
-        exact key _ _ (scanEscape_unicode buf st c h0 hlt y hy l tail)
+        by_cases hlt : c.toNat < 65536
+        · rw [if_pos (by simpa using hlt)] at hx
+          injection hx with hx1 hx2; subst hx1; subst hx2
+          exact key _ _ (scanEscape_unicode buf st c h0 hlt y hy l tail)
+        · rw [if_neg (by simpa using hlt)] at hx
+          injection hx with hx1 hx2; subst hx1; subst hx2
+          have := scanEscape_unicode_brace buf st c (by omega) y hy l tail
+          have h2 : ('u' :: '{' :: (Print.hexTrim c.toNat ++ ['}'])) ++ y :: l
+              = 'u' :: '{' :: (Print.hexTrim c.toNat ++ '}' :: y :: l) := by simp
+          exact key ('u' :: '{' :: (Print.hexTrim c.toNat ++ ['}'])) c (by rw [h2]; exact this)
 
 
 /-- the text between the quotes -/
@@ -741,13 +851,13 @@ theorem stringLoop_quote (s : List Char) (hs : ∀ c ∈ s, QuoteSafe isPrint c)
     have hc := hs c (by simp)
     have hs' : ∀ c ∈ s, QuoteSafe isPrint c := fun d hd => hs d (by simp [hd])
     obtain ⟨f, rfl⟩ : ∃ f, fuel = f + 1 := ⟨fuel - 1, by simp at hf; omega⟩
-    obtain ⟨e, es, he, _⟩ := escapeRune_head isPrint c hc.1
+    obtain ⟨e, es, he, _⟩ := escapeRune_head isPrint c hc
     -- the rest of the quoted text starts with a non-NUL character
     have hrest : ∃ y ys, body isPrint s ++ ['"'] = y :: ys ∧ y.toNat ≠ 0 := by
       cases s with
       | nil => exact ⟨'"', [], by simp [body], by decide⟩
       | cons d s' =>
-        obtain ⟨y, ys, hy, hy0⟩ := escapeRune_head isPrint d (hs' d (by simp)).1
+        obtain ⟨y, ys, hy, hy0⟩ := escapeRune_head isPrint d (hs' d (by simp))
         exact ⟨y, ys ++ (body isPrint s' ++ ['"']), by simp [body, hy], hy0⟩
     obtain ⟨y, ys, hy, hy0⟩ := hrest
     have hx' : x :: xs = e :: (es ++ y :: ys) := by
@@ -774,7 +884,7 @@ theorem scanString_quote (s : List Char) (hs : ∀ c ∈ s, QuoteSafe isPrint c)
     cases s with
     | nil => exact ⟨'"', [], by simp [body], by decide⟩
     | cons d s' =>
-      obtain ⟨y, ys, hy, hy0⟩ := escapeRune_head isPrint d (hs d (by simp)).1
+      obtain ⟨y, ys, hy, hy0⟩ := escapeRune_head isPrint d (hs d (by simp))
       exact ⟨y, ys ++ (body isPrint s' ++ ['"']), by simp [body, hy], hy0⟩
   have hst : st = feed st (x :: xs) tail := by
     cases st with
@@ -828,6 +938,7 @@ theorem lex_quote (o : Oracles) (hq : o.xidStart '"' = false) (hnl : o.isPrint '
   unfold lexFrom
   rw [skipWs_nonws _ _ _ (by decide)]
   simp [hid, isDecimal, hscan]
+
 
 /-! ## §5 Totality
 
